@@ -291,6 +291,41 @@ def extract():
     g["httpMaxHeader"] = rust_int_expr(one(r"const MAX_HEADER_SIZE\s*:\s*usize\s*=\s*([^;]+);", http,
                                            "MAX_HEADER_SIZE").group(1), "MAX_HEADER_SIZE")
 
+    # ---- Client::create_new_session: which scheme shapes the preamble and which one the session runs ------
+    m = one(r"async fn create_new_session\s*\(&self\)[^{]*\{", cli, "Client::create_new_session")
+    depth = 1
+    i = m.end()
+    while i < len(cli) and depth:
+        if cli[i] == "{":
+            depth += 1
+        elif cli[i] == "}":
+            depth -= 1
+        i += 1
+    cns = cli[m.end():i - 1]
+    eff = [(x.start(), x.group(1)) for x in re.finditer(r"let\s+(\w+)\s*=\s*PaddingFactory::effective\(\s*&self\.padding\s*\)\s*;", cns)]
+
+    def scheme_source(arg, pos, what):
+        a = re.sub(r"\s+", "", arg)
+        for epos, var in eff:
+            if a in (var, "&" + var, var + ".clone()", "Arc::clone(&" + var + ")") and epos < pos:
+                return "effective"
+        if a in ("&self.padding", "self.padding.clone()", "Arc::clone(&self.padding)"):
+            return "configured"
+        if a in ("PaddingFactory::effective(&self.padding)", "&PaddingFactory::effective(&self.padding)"):
+            return "effective"
+        raise ExtractError(f"create_new_session: {what}: unrecognised scheme argument `{arg.strip()}`")
+
+    ma = one(r"send_authentication\s*\(", cns, "send_authentication call")
+    args = [x.strip() for x in call_arg(cns, ma.end()).split(",")]
+    if len(args) != 3:
+        raise ExtractError("send_authentication: expected 3 arguments")
+    g["preambleSchemeFrom"] = scheme_source(args[2], ma.start(), "preamble")
+    mn = one(r"Session::new_client\s*\(", cns, "Session::new_client call")
+    args = [x.strip() for x in call_arg(cns, mn.end()).split(",") if x.strip()]
+    if len(args) != 4:
+        raise ExtractError(f"Session::new_client: expected 4 arguments, found {len(args)}")
+    g["sessionSchemeFrom"] = scheme_source(args[2], mn.start(), "session")
+
     # ---- Server::listen: where the reloadable acceptor cell is read relative to accept() -------------
     srv = strip_comments(read("src/server/server.rs"))
     m = one(r"pub async fn listen\s*\(&self[^)]*\)[^{]*\{", srv, "Server::listen")
@@ -386,6 +421,16 @@ def render(g):
     a(f"def udpMaxServer : Nat := {g['udpMaxServer']}")
     a(f"def udpMaxClient : Nat := {g['udpMaxClient']}")
     a(f"def httpMaxHeader : Nat := {g['httpMaxHeader']}")
+    a("")
+    a("/-- which scheme `Client::create_new_session` hands to the preamble (`send_authentication`) and to the session")
+    a("(`Session::new_client`): the configured one or the effective one (configured unless a server has pushed one) -/")
+    a("inductive SchemeSource where")
+    a("  | configured")
+    a("  | effective")
+    a("  deriving DecidableEq, Repr")
+    a("")
+    a(f"def preambleSchemeFrom : SchemeSource := .{g['preambleSchemeFrom']}")
+    a(f"def sessionSchemeFrom : SchemeSource := .{g['sessionSchemeFrom']}")
     a("")
     a("/-- where `Server::listen` reads the reloadable acceptor cell: in the arm of a returned `accept()` (the")
     a("connection gets what is current when it arrives), at the top of the loop before waiting in `accept()` (it gets")
